@@ -466,8 +466,27 @@ pub fn gen_bad(rng: &mut Rng, cfg: &GenCfg) -> Body {
             format!("{},{},{}", rng.pick(&junk), g.props_text(), g.desc)
         }
         10 => {
+            // a value above 10FFFF, spelled out numerically: fixed spellings, a valid code point
+            // with one higher bit set (still fits 32 bits), or a valid code point plus a multiple
+            // of 2^32 (9+ digits: wraps to something valid in 32-bit arithmetic); alone, or as
+            // the start, the end or both ends of a range
             let big = ["110000", "1FFFFF", "FFFFFF", "110000-110001", "0041-110000", "FFFFFFFF"];
-            format!("{},{},{}", rng.pick(&big), g.props_text(), g.desc)
+            let too_big = |rng: &mut Rng| -> String {
+                let v = gen_cp(rng) as u64;
+                match rng.below(3) {
+                    0 => format!("{:X}", v | (1u64 << (21 + rng.below(11)))),
+                    1 => format!("{:X}", v + ((1 + rng.below(0xFFF)) << 32)),
+                    _ => format!("{:X}", 0x110000 + rng.below(0x1000)),
+                }
+            };
+            let field = match rng.below(5) {
+                0 => rng.pick(&big).to_string(),
+                1 => too_big(rng),
+                2 => format!("{:04X}-{}", g.lo, too_big(rng)),
+                3 => format!("{}-{:04X}", too_big(rng), g.hi.unwrap_or(g.lo)),
+                _ => format!("{}-{}", too_big(rng), too_big(rng)),
+            };
+            format!("{},{},{}", field, g.props_text(), g.desc)
         }
         11 => format!("{:04X}-,{},{}", g.lo, g.props_text(), g.desc),
         12 => format!("-{:04X},{},{}", g.lo, g.props_text(), g.desc),
